@@ -316,8 +316,19 @@ def render_machine(prog, base_name=None):
         for nm, val in inst_attrs:
             lines.append(f"        self.{nm} = {val!r}")
         lines.append("        super().__init__(*args, **kwargs)")
+    fe = prog.get("from_enum")
+    if fe:
+        # ``_ = States.from_enum(E, ...)``: every member of the Enum is a state named after it; the class
+        # body reaches them through local aliases that are deleted again at its end
+        en = fe["enum"]
+        ini = next(s["id"] for s in prog["states"] if s.get("initial"))
+        fin = ", ".join(f"{en}.{s['id']}" for s in prog["states"] if s.get("final"))
+        lines.append(f"    _ = States.from_enum({en}, initial={en}.{ini}, final=[{fin}], "
+                     f"use_enum_instance={bool(fe.get('use_enum_instance'))})")
+        ids_ = [s["id"] for s in prog["states"]]
+        lines.append("    " + ", ".join(ids_) + ", = " + ", ".join(f"_.{i}" for i in ids_) + ",")
     for s in prog["states"]:
-        if s.get("inherited"):
+        if s.get("inherited") or fe:
             continue
         kw = []
         if s.get("name"):
@@ -422,6 +433,8 @@ def render_machine(prog, base_name=None):
         if cbid.startswith("machine.") and not prog["cbs"][cbid].get("inherited") \
                 and prog["cbs"][cbid].get("style", "name") == "name" and prog["cbs"][cbid].get("inst_attr") is None:
             lines.append(render_cb(prog, cbid).rstrip("\n"))
+    if fe:
+        lines.append("    del " + ", ".join(s["id"] for s in prog["states"]))
     return "\n".join(lines) + "\n"
 
 
@@ -429,6 +442,7 @@ def render_program(prog, base_name=None):
     src = [
         "import enum",
         "from statemachine import StateMachine, State, Event",
+        "from statemachine.states import States",
         "from statemachine.mixins import MachineMixin",
         "from statemachine.model import Model as _LibModel",
         "from sim.simrt import SIM",
@@ -467,6 +481,9 @@ def render_program(prog, base_name=None):
         src.append(f"class {en['name']}(enum.Enum):")
         for k, v in en["members"]:
             src.append(f"    {k} = {vsrc(v)}")
+        src.append("")
+    if prog.get("enum_import"):
+        src.append(f"from {prog['enum_import'][0]} import {prog['enum_import'][1]}")
         src.append("")
     if base_name and prog.get("base_module"):
         src.append(f"from {prog['base_module']} import {base_name}")
